@@ -20,8 +20,11 @@ from spec import hdlc_wire as W
 
 SERCOMM = "src/target/firmware/comm/sercomm.c"
 HOST_EXTRA = ("-DHOST_BUILD", "-I", "src/target/firmware/include/comm")
-ST_WAIT, ST_ADDR, ST_CTRL, ST_DATA, ST_ESC = 0, 1, 2, 3, 4
+ST_WAIT, ST_ADDR, ST_CTRL, ST_DATA, ST_ESC, ST_AESC, ST_CESC = 0, 1, 2, 3, 4, 5, 6
+STATE_NAMES = {"RX_ST_WAIT_START": ST_WAIT, "RX_ST_ADDR": ST_ADDR, "RX_ST_CTRL": ST_CTRL, "RX_ST_DATA": ST_DATA, "RX_ST_ESCAPE": ST_ESC,
+               "RX_ST_ADDR_ESCAPE": ST_AESC, "RX_ST_CTRL_ESCAPE": ST_CESC}
 NDLCI = 129
+PRE_REPAIR_TABLE = False      # negative control only: the receiver table before 70ceb72 (7D in the ADDR / CTRL states taken as the octet itself)
 
 
 # ====================================================================== the case tables (abstract steps)
@@ -46,14 +49,18 @@ def rx_step(st, dlci, ctrl, rb, rt, rdl, ch):
     store = z3.And(z3.Not(overflow), z3.Or(in_data, st == ST_ESC))
     val = z3.If(st == ST_ESC, W.xor20(ch), ch)
     dispatch = z3.And(z3.Not(overflow), st == ST_DATA, ch == W.FLAG)
+    esc_ch = z3.And(ch == W.ESCAPE, z3.BoolVal(not PRE_REPAIR_TABLE))
     st1 = z3.If(overflow, ST_WAIT,
                 z3.If(st == ST_WAIT, z3.If(ch == W.FLAG, ST_ADDR, ST_WAIT),
-                      z3.If(st == ST_ADDR, ST_CTRL,
-                            z3.If(st == ST_CTRL, ST_DATA,
-                                  z3.If(st == ST_DATA, z3.If(ch == W.ESCAPE, ST_ESC, z3.If(ch == W.FLAG, ST_WAIT, ST_DATA)),
-                                        z3.If(st == ST_ESC, ST_DATA, st))))))
-    dlci1 = z3.If(z3.And(z3.Not(overflow), st == ST_ADDR), ch, dlci)
-    ctrl1 = z3.If(z3.And(z3.Not(overflow), st == ST_CTRL), ch, ctrl)
+                      z3.If(st == ST_ADDR, z3.If(esc_ch, ST_AESC, ST_CTRL),
+                            z3.If(st == ST_AESC, ST_CTRL,
+                                  z3.If(st == ST_CTRL, z3.If(esc_ch, ST_CESC, ST_DATA),
+                                        z3.If(st == ST_CESC, ST_DATA,
+                                              z3.If(st == ST_DATA, z3.If(ch == W.ESCAPE, ST_ESC, z3.If(ch == W.FLAG, ST_WAIT, ST_DATA)),
+                                                    z3.If(st == ST_ESC, ST_DATA, st))))))))
+    ok = z3.Not(overflow)
+    dlci1 = z3.If(z3.And(ok, st == ST_ADDR, z3.Not(esc_ch)), ch, z3.If(z3.And(ok, st == ST_AESC), W.xor20(ch), dlci))
+    ctrl1 = z3.If(z3.And(ok, st == ST_CTRL, z3.Not(esc_ch)), ch, z3.If(z3.And(ok, st == ST_CESC), W.xor20(ch), ctrl))
     return {"ret": z3.If(overflow, 0, 1), "overflow": overflow, "st": st1, "dlci": dlci1, "ctrl": ctrl1, "store": store, "val": val,
             "dispatch": dispatch}
 
@@ -339,7 +346,8 @@ class DrvRxChar(Contract):
     """sercomm_drv_rx_char(ch), full case table = rx_step(...):
        no receive buffer -> one is allocated (SERCOMM_RX_MSG_SIZE octets of tailroom) first;
        no tailroom left  -> buffer freed, a fresh one allocated, state WAIT_START, returns 0 (the over-long frame is dropped);
-       WAIT_START: 7E -> ADDR, anything else ignored;  ADDR: dlci := ch -> CTRL;  CTRL: ctrl := ch -> DATA;
+       WAIT_START: 7E -> ADDR, anything else ignored;  ADDR: 7D -> ADDR_ESCAPE, else dlci := ch -> CTRL;  ADDR_ESCAPE: dlci := ch ^ 20 -> CTRL;
+       CTRL: 7D -> CTRL_ESCAPE, else ctrl := ch -> DATA;  CTRL_ESCAPE: ctrl := ch ^ 20 -> DATA;
        DATA: 7D -> ESCAPE;  7E -> the buffer is handed to handler[dlci] (freed when dlci >= _SC_DLCI_MAX or no handler), no buffer, WAIT_START;
              else the octet is appended;   ESCAPE: ch ^ 20 appended -> DATA;   returns 1."""
     name = "sercomm_drv_rx_char"
